@@ -575,6 +575,9 @@ class PseudoNetCDFFile(PseudoNetCDFSelfReg, object):
             raise ValueError(
                 'val2idx is only implemented for 1-D coordinate variables'
             )
+        if np.asarray(dimvals).dtype.kind == 'u':
+            # differences of unsigned integers wrap around
+            dimvals = np.asarray(dimvals).astype('d')
 
         bounds_keys = [dim + '_bounds', dim + '_bnds']
         if hasattr(dimv, 'bounds'):
@@ -617,6 +620,9 @@ class PseudoNetCDFFile(PseudoNetCDFSelfReg, object):
             idx = np.arange(dimevals.size)
         else:
             idx = np.arange(dimvals.size)
+        if np.asarray(dimevals).dtype.kind == 'u':
+            # differences of unsigned integers wrap around
+            dimevals = np.asarray(dimevals).astype('d')
         ddimevals = np.diff(dimevals)
 
         if (ddimevals < 0).all():
